@@ -19,6 +19,10 @@ import (
 // goroutines of the code under test started while no simulation was running
 var outside atomic.Int64
 
+// SlotsReused: task slots taken over from finished tasks (a phase that started
+// more than 94 tasks in all)
+var SlotsReused int64
+
 var (
 	stalls        [4][3]int64
 	nStall        int
@@ -354,9 +358,29 @@ func Spawn(f func()) int {
 func allocTask() int {
 	id := nTasks
 	if id >= MaxTasks-1 { // the last slot belongs to the timer spawner
-		return -1
+		// every slot was used in this phase: take over the slot of a task that has
+		// finished (its goroutine touched the slot for the last time before it
+		// handed the run token on, and only the token holder gets here)
+		id = -1
+		for i := 0; i < nTasks; i++ {
+			if tasks[i].state == stDone {
+				id = i
+				break
+			}
+		}
+		if id < 0 {
+			setUnsupported("more than 94 simulated tasks alive at once")
+			return -1
+		}
+		if tasks[id].rfd != 0 {
+			syscall.Close(tasks[id].rfd)
+			syscall.Close(tasks[id].wfd)
+		}
+		tasks[id] = task{}
+		SlotsReused++
+	} else {
+		nTasks++
 	}
-	nTasks++
 	t := &tasks[id]
 	t.state = stRunnable
 	t.opLimit = defLimit
